@@ -403,7 +403,7 @@ class C08:
         self._setup()
         if not self.caps:
             rec.inconclusive("could not drop CAP_DAC_OVERRIDE: execute bits do not apply to root")
-        for i in range(sh["n"]):
+        for i in harness.budgeted(range(sh["n"]), rec):
             case = {"rseed": f"{sh['seed']}/C08/{sh['index']}/{i}", "steps": sh["steps"]}
             if i < 2:
                 rec.sample(case, "history")
